@@ -242,7 +242,8 @@ def r4_resolution_and_attachment(ctx):
     order = [norm(s.iter) for s in sorted(loops, key=lambda s: po_[id(s)])]
     ok = order == ['pop_loops', 'push_loops']
     yield Ob('x12context:X12ContextReader._add_segment replays popped loops before pushed loops', ok, ctx.floc(f), '' if ok else 'order %s' % order)
-    ok = 'cur_loop_node = cur_loop_node.parent' in txt and 'cur_loop_node = cur_loop_node._add_loop_node(x12_loop)' in txt
+    import re as _re
+    ok = bool(_re.search(r'\b(\w+) = \1\.parent\b', txt)) and bool(_re.search(r'\b(\w+) = \1\._add_loop_node\(x12_loop\)', txt))
     require_idiom(ok, 'c09.py:231')
     yield Ob('x12context:X12ContextReader._add_segment pops to the parent and pushes a child loop node', ok, ctx.floc(f), '' if ok else 'replay statements changed')
     news = [c for c in A.calls_in(f) if A.call_target(c)[1] == 'X12SegmentDataNode']
